@@ -1,0 +1,10 @@
+//go:build !verif
+
+package bloomsearch
+
+// Verification hook stubs: with the "verif" build tag off these are empty and
+// inlined away (see verif_hooks_on.go for the instrumented versions).
+
+func verifEv(kind string, args ...any) {}
+
+func verifFS(op, path string) {}
